@@ -59,9 +59,9 @@ func acceptedWorkload(c *fw.Ctx, scale int, emit emitFn) {
 		`{"id": "2021-01-02" // {type: "date"}` + "\n}", `{"id": "x@y.z" // {type: "email"}` + "\n}", `{"id": "bad" // {type: "email"}` + "\n}",
 		`{"id": 1 // {const: true}` + "\n}", `{"k": 1 // {additionalProperties: "string"}` + "\n}", `{ // {additionalProperties: "@t"}` + "\n}",
 		`{"id": "\xff"}`, `{"id\xc3": 1}`, `{"@t": 1}`, `{@t: 1}`, `{"id": 1 /* note */}`, `{"id": 1 // {min: 1} - the id` + "\n}", `"x" // {regex: "^x$"}`, `"x" // {regex: "("}`,
-		`{"a":1,"a":2}`, `[1 // {min: 2}` + "\n]", `{"id": 12 // {type: "mixed", or: ["@t", {type: "integer"}]}` + "\n}",
+		`{"a":1,"a":2}`, `{"q\"k": 1, "b\\s": "v\"q\\ \n \u00e9 /", "uni\u00e9": -0.5, "": 0, "ключ": [[], {}], "e": {}}`, `{"plain key": "text with \"quotes\" and \\ and é", "n": 12345678901234567890, "z": -0}`, `[1 // {min: 2}` + "\n]", `{"id": 12 // {type: "mixed", or: ["@t", {type: "integer"}]}` + "\n}",
 	}
-	regexes := []string{`/abc/`, `/[a-z]+/`, `/(/`, `/[a-z]\x95/`, `//`, `/a{2,1}/`, `/\d+/`, `/(?=a)/`, `/a/ `, `/\//`, `/[/`, "/a\nb/", `/(?P<n>a)/`}
+	regexes := []string{`/[^\x00-\x{10FFFF}]/`, `/[^\s\S]/`, `/a{0}/`, `/\b\B/`, `/$a/`, `/abc/`, `/[a-z]+/`, `/(/`, `/[a-z]\x95/`, `//`, `/a{2,1}/`, `/\d+/`, `/(?=a)/`, `/a/ `, `/\//`, `/[/`, "/a\nb/", `/(?P<n>a)/`}
 	types := []string{"", "TYPE @t\n{\"k\": 1}\n", "TYPE @t\n{\"k\": 1}\nTYPE @u\n{\"m\": \"s\"}\n", "TYPE @t regex\n/ab+/\n", "TYPE @t any\n", "TYPE @t empty\n",
 		"TYPE @t\n1\n", "TYPE @t\n{\"k\": @u}\nTYPE @u\n{\"l\": @t // {optional: true}\n}\n", "TYPE @t\n[1]\n", "TYPE @t\n\"s\" // {enum: @e}\nENUM @e\n[\"s\", \"t\"]\n",
 		"TYPE @t\n{\"k\": 1}\nTYPE @u\n{\"m\": \"s\"}\nTYPE @base\n{\n  \"x\": @t|@u,\n  \"y\": @t  |  @u,\n  \"z\": @u |@t\n}\nTYPE @d\n{ // {allOf: \"@base\"}\n  \"own\": 1\n}\n",
@@ -80,7 +80,13 @@ func acceptedWorkload(c *fw.Ctx, scale int, emit emitFn) {
 		sb.WriteString(pick(types))
 		switch r.Intn(10) {
 		case 9: // ids that are different but are written the same way (the text of the id is the key in the catalog)
-			switch r.Intn(4) {
+			switch r.Intn(7) {
+			case 4: // names and paths with blanks at their ends (quoted): key, id and the fields must still agree
+				sb.WriteString("URL /rpc\n  Protocol json-rpc-2.0\n  Method \" ping\"\n    Result\n      1\n  Method \"get cats \"\n    Result\n      2\n  Method \"  x  \"\n    Result\n      3\nGET \"/p \"\n  200 any\nPOST \"/p  \"\n  200 any\n")
+			case 5: // runs of invalid bytes: encoding/json writes one U+FFFD per byte
+				sb.WriteString("GET /a\xff\xff\n  200 any\nGET /a\xef\xbf\xbd\xef\xbf\xbd\n  200 any\n")
+			case 6:
+				sb.WriteString("GET /b\xff\n  200 any\nGET /b\xff\xff\n  200 any\nURL /r\n  Protocol json-rpc-2.0\n  Method caf\xe9\n    Result\n      1\n  Method caf\xe8\n    Result\n      2\n")
 			case 0:
 				sb.WriteString("URL /y\n  Protocol json-rpc-2.0\n  Method \"a /x\"\n    Result\n      1\nURL \"/x /y\"\n  Protocol json-rpc-2.0\n  Method a\n    Result\n      2\n")
 			case 1:
